@@ -477,6 +477,8 @@ def inject(rng, script, info, cls):
                   if not any(k in s2 for s2 in SPEC_KEYS[fn])]
         present = pub_keys(d)
         cands = ["bogus", "Label", rng.choice(others)] + ([present[0] + "s", present[0].upper() + "_"] if present else [])
+        if rng.random() < 0.5:        # a piece (prefix / suffix / inner part) of an accepted key of this very dictionary
+            cands = key_pieces(rng, fn, 6)
         bad = rng.choice([c for c in cands if not any(c in s for s in SPEC_KEYS[fn])])
         d[bad] = 1
         return path, {"op": "validate", "kind": "keys", "fn": fn, "keys": pub_keys(d)}, "key %r" % bad
@@ -1100,6 +1102,9 @@ def run(ctx):
     # ---------------------------------------------------------------- 2. setters called directly with invalid values
     direct_setters(ctx)
 
+    # ---------------------------------------------------------------- 2.0 every *_from_dict directly: pieces of accepted keys
+    direct_from_dict(ctx)
+
     # ---------------------------------------------------------------- 2a. refused writes leave the object untouched
     refused_writes(ctx)
 
@@ -1472,6 +1477,75 @@ def refused_writes(ctx):
                    expected="exception; every getter and both arrays bit for bit as before; the next valid write works")
 
 
+def key_pieces(rng, fn, k=None):
+    """proper substrings of the accepted keys of `fn` that are not accepted keys themselves"""
+    accepted = [x for syn in SPEC_KEYS[fn] for x in syn]
+    out = []
+    for key in accepted:
+        for i in range(len(key)):
+            for j in range(i + 1, len(key) + 1):
+                sub = key[i:j]
+                if sub != key and sub not in accepted and sub not in out and not sub.startswith("_"):   # "_…" keys are the generator's own
+                    out.append(sub)
+    if k is not None and len(out) > k:
+        out = rng.sample(out, k)
+    return out
+
+
+DIRECT_DICTS = {
+    "rdgridspace_from_dict": lambda: {"w": 2, "h": 1, "d": 1},
+    "species_from_dict": lambda: {"label": "A"},
+    "reaction_from_dict": lambda: {"stoichiometry": "A -> B"},
+    "rdnetwork_from_dict": lambda: {"species": [{"label": "A"}]},
+    "rdgraphspacenode_from_dict": lambda: {},
+    "rdgraphspaceedge_from_dict": lambda: {"nodes": [0, 1]},
+    "rdgraphspace_from_dict": lambda: {"nodes": [{}], "edges": []},
+    "unitssystem_from_dict": lambda: {},
+    "unitarray_from_dict": lambda: {"value": [1.0], "units": "s"},
+}
+
+
+def call_from_dict(fn, d):
+    import strengths.rdnetwork as N, strengths.rdgridspace as G, strengths.rdgraphspace as GR, strengths.units as U
+    f = None
+    for mod in (N, G, GR, U):
+        f = getattr(mod, fn, None) or f
+    return call(lambda: f(copy.deepcopy(d)))
+
+
+def direct_from_dict(ctx):
+    """every *_from_dict called directly (no key added by an enclosing loader) with an unknown key that is a piece of an accepted one"""
+    rng = ctx.rng
+    ops, meta = [], []
+    for fn, mk in DIRECT_DICTS.items():
+        st0, _ = call_from_dict(fn, mk())
+        if st0 != "ok":
+            ctx.disagree("validate:valid-dict", {"kind": "direct-dict", "fn": fn, "dict": mk()}, "raised", {"ok": None})
+            continue
+        pieces = key_pieces(rng, fn)
+        short = [p_ for p_ in pieces if len(p_) <= 2]
+        near = [key[:-1] for syn in SPEC_KEYS[fn] for key in syn if len(key) > 1] + [key[1:] for syn in SPEC_KEYS[fn] for key in syn if len(key) > 1]
+        chosen = [p_ for p_ in dict.fromkeys(near + short) if p_ in pieces]
+        rest = [p_ for p_ in pieces if p_ not in chosen]
+        chosen += rest if ctx.tier == "thorough" else rng.sample(rest, min(25, len(rest)))
+        for bad in chosen:
+            d = mk()
+            d[bad] = 1
+            ops.append({"op": "validate", "kind": "keys", "fn": fn, "keys": list(d)})
+            meta.append((fn, bad, d))
+    res = ctx.model.run(ops)
+    for (fn, bad, d), r in zip(meta, res):
+        st, exc = call_from_dict(fn, d)
+        case = {"kind": "direct-dict", "fn": fn, "dict": d, "bad": bad}
+        ctx.case(("direct-dict", fn, bad), nontrivial=True)
+        ctx.count("direct_dict_unknown_piece")
+        if st == "ok":
+            report(ctx, "unknown-key-piece@%s" % fn, "%s(%r): the unknown key %r (a piece of an accepted key) was accepted" % (fn, d, bad),
+                   case, impl="accepted", expected="exception")
+        if r is not None and ("error" in r) != (st == "error"):
+            ctx.disagree("validate:unknown-key-piece", case, st, r)
+
+
 def thunk_of(op):
     """the real-code call a `validate` op of the direct stream stands for"""
     from strengths.rdspace import RDGridSpace
@@ -1701,6 +1775,9 @@ def replay(ctx, rec):
         got = run_index_map(tuple(case["shape"]), case["im"], case["env"])
         inv = spec_index_map_invalid(case["im"], case["env"])
         return not (inv and got == "ok"), {"case": case, "impl": got, "invalid_because": inv}
+    if kind == "direct-dict":
+        st, exc = call_from_dict(case["fn"], case["dict"])
+        return st == "error", {"case": case, "impl": [st, exc], "expected": "exception"}
     if kind == "refused-write":
         name, fails, detail = run_refused_write(case["index"])
         return (not fails), {"case": case, "name": name, "impl": detail, "failures": fails}
